@@ -44,6 +44,12 @@ pub open spec fn only_returned_opened(f0: Map<int, Obj>, f1: Map<int, Obj>, a: O
 //@FN _get_dupped_stderr_fd
 //@FN print_stdout
 //@FN print_stderr
+// is_redirected(cmd, fd): cmd.redirects_to.iter().any(|x| x.0 == fd) through a shim with the std contract of Iterator::any
+pub open spec fn redirected(cmd: Command, fd: Seq<char>) -> bool { exists|i: int| 0 <= i < cmd.redirects_to@.len() && (#[trigger] cmd.redirects_to@[i]).0@ == fd }
+#[verifier::external_body]
+pub fn is_redirected(cmd: &Command, fd: &str) -> (r: bool) ensures r == redirected(*cmd, fd@) { unimplemented!() }
+//@FN print_stderr_with_capture
+//@FN print_stdout_with_capture
 ''' + common.TAIL
 
 U = 'src/builtins/utils.rs'
@@ -107,7 +113,16 @@ print_stderr = Fn(U, 'print_stderr', pre_rewrites=RW, add_params='Tracked(k): Tr
     requires=[('C05.pre.bfd.len5', '!old(k).fds.contains_key(-1) && cmd.redirects_to@.len() < 0x7fff_ffff')],
     ensures=[('C08+C04.bfd.printing_errors_leaves_the_shell_table_unchanged', 'cl.commands@.len() <= 1 ==> final(k).fds =~= old(k).fds')])
 
-UNIT = Unit('U-BFD', TEMPLATE, fns=[get_std_fds, stdout_fd, stderr_fd, print_stdout, print_stderr],
+# C04 for builtins under capture: output that the command line redirects is written there, not captured; what is captured is exactly the text
+cap_out = Fn(U, 'print_stdout_with_capture', pre_rewrites=RW, add_params='Tracked(k): Tracked<&mut Kernel>', ghost_args=dict(GA, print_stdout='Tracked(k)'),
+    requires=[('C05.pre.bfd.len6', '!old(k).fds.contains_key(-1) && cmd.redirects_to@.len() < 0x7fff_ffff')],
+    ensures=[('C04+C11.bfd.redirected_output_of_a_builtin_is_not_captured',
+              'if capture && !redirected(*cmd, "1"@) { final(cr).stdout@ == info@ && final(k).fds == old(k).fds } else { final(cr).stdout@ == old(cr).stdout@ }')])
+cap_err = Fn(U, 'print_stderr_with_capture', pre_rewrites=RW, add_params='Tracked(k): Tracked<&mut Kernel>', ghost_args=dict(GA, print_stderr='Tracked(k)'),
+    requires=[('C05.pre.bfd.len7', '!old(k).fds.contains_key(-1) && cmd.redirects_to@.len() < 0x7fff_ffff')],
+    ensures=[('C04+C11.bfd.redirected_error_output_of_a_builtin_is_not_captured',
+              'if capture && !redirected(*cmd, "2"@) { final(cr).stderr@ == info@ && final(k).fds == old(k).fds } else { final(cr).stderr@ == old(cr).stderr@ }')])
+UNIT = Unit('U-BFD', TEMPLATE, fns=[get_std_fds, stdout_fd, stderr_fd, print_stdout, print_stderr, cap_err, cap_out],
             types=[TypeItem('src/types.rs', 'struct', 'Command'), TypeItem('src/types.rs', 'struct', 'CommandLine'), TypeItem('src/types.rs', 'struct', 'CommandResult')],
             props=('C08', 'C04', 'C05'))
 TRUSTED = common.TRUSTED_STR + [
